@@ -157,7 +157,9 @@ type Program struct {
 	// where to send output, this will usually be os.Stdout.
 	output io.Writer
 	// ttyOutput is null if output is not a TTY.
-	ttyOutput           term.File
+	ttyOutput term.File
+	// resizeMu serialises window size queries and their reports.
+	resizeMu            sync.Mutex
 	previousOutputState *term.State
 	renderer            renderer
 
